@@ -32,6 +32,13 @@ Model/Engine.lean applied to the `St` part (`liftA`).  New:
 
 Not modelled (as in Model/Engine.lean): `close()`, `max_size > 0`, actions that
 raise (the pool logs and drops them: no response), `join()`.
+
+Tie to the code (D): Drivers/EngineAsync.lean (`bobodrv engineA`) against the real
+engine with real handler objects over a recording pool (harness/props/c02.py,
+asynchronous family): `complete k` = the harness runs the k-th recorded
+`_pool_execute_action(queue, action, event, max_size)` itself; the script of
+`AOp.update` is realised by completing jobs right before each `task.update()` call
+of the engine loop and between `_update_handler()` and `_update_responses()`.
 -/
 namespace Bobo.Engine
 
